@@ -1,8 +1,11 @@
 (* C12, clause "revealing refuses plates whose stored values are all zero or contain NaN", read PER PLATE.
-   The code (and hence the model, which equals its translation) evaluates both guards on the union of the selected
-   rows.  Per plate this gives: the NaN half holds (any over the union is the stricter test), the zero half holds only
-   when EVERY named plate is all zero - an all-zero plate named together with a plate holding a non-zero value is
-   revealed (reveal_zero_guard_is_joint: the witness the harness replays on the implementation). *)
+   Since fix fx5 the code tests the zero guard on every selected plate by itself (after the joint test over the union of
+   the selected rows, which it keeps and which refuses the empty selection); the NaN guard is np.any over the union, which
+   is per plate already.  Hence: ONE named plate of the screen whose stored values are all zero refuses the whole reveal
+   (reveal_refuses_zero_per_plate), reveal_zero_guard_spec says exactly when the zero guard fires, and a NaN in one named
+   plate refuses the reveal too (with the zero error when another named plate is all zero: the zero guard comes first).
+   The code BEFORE the fix (Model/Reveal.reveal_plates_joint) revealed an all-zero plate named together with a plate
+   holding a non-zero value: reveal_zero_guard_was_joint, the witness the harness keeps as corpus/C12/zero-plate-beside-nonzero.json. *)
 From Coq Require Import ZArith List Bool Lia.
 From Batchie Require Import Lib.Sexp Generated.Consts Model.Encode Model.Screen Model.Reveal Model.Holdout
   Proofs.C03Base Proofs.C03Screen Proofs.C12Reveal Proofs.C03Witness Generated.SrcReveal Proofs.C12Source_Reveal.
@@ -55,43 +58,92 @@ Proof.
   exists pid. split; [exact Hpid|now apply in_map].
 Qed.
 
-(* NaN half, per plate: ONE named plate containing a NaN refuses the whole reveal *)
+(* the plates the loop of the repaired code visits: the plates of the screen that the ids name *)
+Lemma select_self_in (ids pids : list Z) pid :
+  In pid (select (map (fun p => mem_Z p ids) pids) pids) <-> In pid pids /\ mem_Z pid ids = true.
+Proof.
+  induction pids as [|p pids IH]; cbn [map select In]; [tauto|].
+  destruct (mem_Z p ids) eqn:E; cbn [In]; rewrite IH; split.
+  - intros [->|[H1 H2]]; [split; [now left|exact E]|split; [now right|exact H2]].
+  - intros [[->|H1] H2]; [now left|right; now split].
+  - intros [H1 H2]; split; [now right|exact H2].
+  - intros [[->|H1] H2]; [congruence|now split].
+Qed.
+
+Lemma mem_Z_iff x l : mem_Z x l = true <-> In x l.
+Proof.
+  split; [|apply mem_Z_in]. unfold mem_Z. intros H. apply existsb_exists in H. destruct H as (y & Hy & E).
+  apply Z.eqb_eq in E. now subst y.
+Qed.
+
+Lemma revealed_plate_ids_spec s ids pid :
+  In pid (revealed_plate_ids s ids) <-> In pid (s_pids s) /\ In pid ids.
+Proof.
+  unfold revealed_plate_ids, reveal_sel. rewrite (In_sort_uniq Z.compare Z.compare_eq), select_self_in, mem_Z_iff. tauto.
+Qed.
+
+(* exactly when the zero guard of the repaired code fires *)
+Theorem reveal_zero_guard_spec s ids :
+  reveal_zero_guard s ids = true <->
+  forallb obs_is_zero (revealed_values s ids) = true \/
+  exists pid, In pid ids /\ In pid (s_pids s) /\ forallb obs_is_zero (plate_values s pid) = true.
+Proof.
+  unfold reveal_zero_guard. rewrite orb_true_iff, existsb_exists. split.
+  - intros [H|(pid & Hp & Hz)]; [now left|right]. apply revealed_plate_ids_spec in Hp. exists pid. tauto.
+  - intros [H|(pid & H1 & H2 & Hz)]; [now left|right]. exists pid. split; [apply revealed_plate_ids_spec; tauto|exact Hz].
+Qed.
+
+(* zero half, per plate, at full strength: ONE named plate of the screen whose stored values are all zero refuses the
+   whole reveal, whatever else is named *)
+Theorem reveal_refuses_zero_per_plate v s ids pid :
+  In pid ids -> In pid (s_pids s) -> forallb obs_is_zero (plate_values s pid) = true -> reveal_plates v s ids = Err 8.
+Proof.
+  intros H1 H2 Hz. apply reveal_refuses_guard. apply reveal_zero_guard_spec. right. exists pid. tauto.
+Qed.
+
+(* NaN half, per plate: ONE named plate containing a NaN refuses the whole reveal (tag 9, or tag 8 when the zero guard,
+   which comes first, fires for another named plate) *)
 Theorem reveal_refuses_nan_per_plate v s ids pid :
-  In pid ids -> existsb obs_is_nan (plate_values s pid) = true -> reveal_plates v s ids = Err 9.
+  In pid ids -> existsb obs_is_nan (plate_values s pid) = true ->
+  reveal_plates v s ids = Err (if reveal_zero_guard s ids then 8 else 9).
 Proof.
   intros Hin H. apply reveal_refuses_nan. apply existsb_exists in H. destruct H as (x & Hx & Hn).
   apply existsb_exists. exists x. split; [now apply (plate_values_incl s ids pid Hin)|exact Hn].
 Qed.
 
-(* zero half, per plate, as far as it is true: refused (tag 8) when EVERY named plate is all zero *)
-Theorem reveal_refuses_zero_every_plate v s ids :
-  (forall pid, In pid ids -> forallb obs_is_zero (plate_values s pid) = true) -> reveal_plates v s ids = Err 8.
+(* an accepted reveal: every named plate of the screen holds a non-zero value, and no selected value is a NaN *)
+Theorem reveal_ok_per_plate v s ids s' pid :
+  reveal_plates v s ids = Ok s' -> In pid ids -> In pid (s_pids s) ->
+  forallb obs_is_zero (plate_values s pid) = false /\ existsb obs_is_nan (plate_values s pid) = false.
 Proof.
-  intros H. apply reveal_refuses_zero. apply forallb_forall. intros x Hx.
-  destruct (revealed_value_named s ids x Hx) as (pid & Hpid & Hx').
-  specialize (H pid Hpid). rewrite forallb_forall in H. now apply H.
+  intros H H1 H2. split.
+  - destruct (forallb obs_is_zero (plate_values s pid)) eqn:E; [|reflexivity].
+    rewrite (reveal_refuses_zero_per_plate v s ids pid H1 H2 E) in H. discriminate.
+  - destruct (existsb obs_is_nan (plate_values s pid)) eqn:E; [|reflexivity].
+    rewrite (reveal_refuses_nan_per_plate v s ids pid H1 E) in H. discriminate.
 Qed.
 
-(* ... and NOT when only some are: plate "0" (ids 0) holds +0.0 and -0.0, plate "1" holds 0.5 and 0.25, both
-   unobserved; reveal [0; 1] returns a screen in which the all-zero plate 0 is observed. *)
+(* the code BEFORE fix fx5 (reveal_plates_joint): plate "0" (id 0) holds +0.0 and -0.0, plate "1" holds 0.5 and 0.25, both
+   unobserved; the old reveal [0; 1] returned a screen in which the all-zero plate 0 is observed.  The repaired model and
+   the translated source refuse it. *)
 Definition z_rows : list row :=
   [ {| r_sample := [97]; r_plate := [48]; r_treats := [([120], 1)]; r_obs := 0; r_mask := false |};
     {| r_sample := [97]; r_plate := [48]; r_treats := [([120], 1)]; r_obs := two63; r_mask := false |};
     {| r_sample := [97]; r_plate := [49]; r_treats := [([120], 1)]; r_obs := 4602678819172646912; r_mask := false |};
     {| r_sample := [97]; r_plate := [49]; r_treats := [([120], 1)]; r_obs := 4598175219545276416; r_mask := false |} ].
 Definition z_screen : screen := Eval vm_compute in get (mk_screen z_rows 1 [] None None true true).
-Definition z_revealed : screen := Eval vm_compute in get (reveal_plates (carry_mappings true) z_screen [0; 1]).
+Definition z_revealed : screen := Eval vm_compute in get (reveal_plates_joint (carry_mappings true) z_screen [0; 1]).
 
 Lemma z_screen_ok : mk_screen z_rows 1 [] None None true true = Ok z_screen.
 Proof. vm_compute. reflexivity. Qed.
 
-Theorem reveal_zero_guard_is_joint :
+Theorem reveal_zero_guard_was_joint :
   exists s ids pid s',
     constructed s /\ In pid ids /\ In pid (s_pids s) /\ plate_observed s pid = false /\
     plate_values s pid <> [] /\ forallb obs_is_zero (plate_values s pid) = true /\
-    reveal_plates (carry_mappings true) s [pid] = Err 8 /\
-    src_reveal_plates s ids = Ok s' /\ reveal_plates (carry_mappings true) s ids = Ok s' /\
-    plate_observed s' pid = true.
+    reveal_plates_joint (carry_mappings true) s [pid] = Err 8 /\
+    reveal_plates_joint (carry_mappings true) s ids = Ok s' /\ plate_observed s' pid = true /\
+    reveal_plates (carry_mappings true) s ids = Err 8 /\ src_reveal_plates s ids = Err 8.
 Proof.
   exists z_screen, [0; 1], 0, z_revealed.
   split; [exists z_rows, 1%nat, [], None, None, true, true; exact z_screen_ok|].
